@@ -287,8 +287,10 @@ def stmt(s):
     if isinstance(s, ast.Return):
         return "(SReturn %s)" % oexpr(s.value)
     if isinstance(s, ast.Raise):
-        if s.exc is None or s.cause is not None:
-            raise Unsupported("re-raise")
+        if s.exc is None and s.cause is None:
+            return "(SRaise (EName %s))" % cstr("$reraise")     # bare raise: the exception being handled
+        if s.cause is not None:
+            raise Unsupported("raise ... from")
         x = s.exc
         name = exc_name(x.func if isinstance(x, ast.Call) else x)
         return "(SRaise (EName %s))" % cstr(name)
@@ -526,10 +528,16 @@ ONLY = {"comm.py": {"CommHandler": [
     "ch_enable_all", "ch_disable_all", "ch_is_enabled", "ch_div_get", "channels_default_cfg",
     "_nxslib_cmninfo", "_nxslib_chinfo",
     # the description phase of the handshake (the frame queues and the link are scripted stubs)
-    "_devinfo_get", "_drop_all", "_drop_all_frames", "_get_stream_frame"]}}
+    "_devinfo_get", "_drop_all", "_drop_all_frames", "_get_stream_frame",
+    # connect / disconnect (the receive thread is a recording stub)
+    "_start", "_stop", "connect", "disconnect"]},
+    "nxscope.py": {"NxscopeHandler": [
+        "_stream_start", "_stream_stop", "_reset_stats", "dev", "connect", "disconnect", "dev_channel_get",
+        "stream_start", "stream_stop", "channels_default_cfg", "ch_enable", "ch_disable", "ch_disable_all",
+        "ch_divider", "channels_write"]}}
 
 MODULES = ["proto/iframe.py", "proto/serialframe.py", "dev.py", "proto/iparse.py", "proto/parse.py",
-           "proto/iparserecv.py", "proto/parserecv.py", "intf/iintf.py", "comm.py", "$prelude"]
+           "proto/iparserecv.py", "proto/parserecv.py", "intf/iintf.py", "comm.py", "nxscope.py", "$prelude"]
 
 
 def crc_table():
